@@ -223,3 +223,12 @@ reg('C11', engine='pysym + llsym',
     note='Trusted: pysym/llsym semantics, CPython contracts. Whole-module equivalence (types, functions, globals through '
          'the import machinery) is NOT decided.',
     technique='symbolic execution via proxy values (Python AST) and of LLVM IR (C), SMT (z3 bit-vectors)')
+
+reg('C21', engine='llsym',
+    text='Partial: one symbolic step of every operation of cffi\'s finaliser state machine from an arbitrary object state '
+         '(destructor/origobj present or not, destructor returning or raising): called iff set, at most once, with the '
+         'original object, fields cleared before the call; release idempotent; never after gc(p, None); from_buffer exports '
+         'released once; tp_traverse functions visit exactly the owned references; from_handle(new_handle(x)) is x.',
+    note='Trusted: clang IR, llsym semantics; CPython runs tp_dealloc/tp_finalize once and collects cycles through tp_traverse. '
+         'GC histories themselves are not explored.',
+    technique='symbolic execution of LLVM IR, one step from an arbitrary object state (solver-forked)')
